@@ -854,11 +854,13 @@ func downSamplingEmitsEverySlot(c *eng.Ctx) {
 	c.Rule("EXHAUSTIVE", "aggregation.DownSamplingMultiSeriesInto{every target slot is emitted, in order}", func() {
 		f := c.Fn("aggregation.DownSamplingMultiSeriesInto")
 		var emits []eng.Site
-		for _, b := range f.Blocks {
+		for _, b := range eng.BlocksT(f) {
 			for _, in := range b.Instrs {
 				if cl, ok := in.(*ssa.Call); ok {
-					if pa, isP := eng.Unwrap(cl.Common().Value).(*ssa.Parameter); isP && pa.Parent() == f && cl.Common().StaticCallee() == nil && !cl.Common().IsInvoke() {
-						emits = append(emits, eng.Site{Fn: f, Instr: in})
+					if pa, isP := eng.Unwrap(cl.Common().Value).(*ssa.Parameter); isP && cl.Common().StaticCallee() == nil && !cl.Common().IsInvoke() {
+						if _, isFn := pa.Type().Underlying().(*types.Signature); isFn {
+							emits = append(emits, eng.Site{Fn: in.Parent(), Instr: in})
+						}
 					}
 				}
 			}
@@ -866,6 +868,7 @@ func downSamplingEmitsEverySlot(c *eng.Ctx) {
 		if len(emits) != 1 {
 			c.Undecided("expected one call of the emit callback in DownSamplingMultiSeriesInto, found %d", len(emits))
 		}
+		f = emits[0].Instr.Parent() // the function that holds the emit loop (f itself, or a helper it was moved into)
 		everyIterationPasses(c, f, emits[0], "no-slot-skipped",
 			"the consumer (TSDEncoder.EmitDownSamplingValue) appends one slot mark per call and ignores the position argument: the emit loop calls the callback for EVERY target slot, the empty ones (+Inf marker) included - a skipped slot moves every later value one slot earlier")
 		h := innermostLoop(f, emits[0].Instr.Block())
@@ -1462,7 +1465,11 @@ func decoderAcceptsTheShortestBlock(c *eng.Ctx) {
 			}
 			return 0, false
 		}
-		latch := eng.StoreField("pkg/encoding.TSDDecoder.err")
+		isErrStore := eng.StoreField("pkg/encoding.TSDDecoder.err")
+		latch := func(p *eng.Prog, in ssa.Instruction) bool {
+			st, ok := in.(*ssa.Store)
+			return ok && isErrStore(p, in) && !eng.IsNilConst(st.Val) // clearing the error is not a rejection
+		}
 		n := 0
 		for _, b := range f.Blocks {
 			for _, in := range b.Instrs {
@@ -1757,15 +1764,19 @@ func wireReaderInventsNothing(c *eng.Ctx) {
 		n := 0
 		for _, fk := range []string{"sql/stmt.Query.UnmarshalJSON", "sql/stmt.MetricMetadata.UnmarshalJSON"} {
 			f := c.Fn(fk)
-			recv := f.Params[0]
-			for _, b := range f.Blocks {
+			typ := strings.TrimSuffix(fk, ".UnmarshalJSON")
+			for _, b := range eng.BlocksT(f) {
 				for _, in := range b.Instrs {
 					st, ok := in.(*ssa.Store)
 					if !ok {
 						continue
 					}
 					fa, ok := st.Addr.(*ssa.FieldAddr)
-					if !ok || eng.Unwrap(fa.X) != ssa.Value(recv) {
+					if !ok || !strings.HasPrefix(eng.FieldKeyOfAddr(fa), typ+".") {
+						continue
+					}
+					// the statement itself (the receiver, possibly handed on to a helper), not a local of the same type
+					if _, isParam := eng.Unwrap(fa.X).(*ssa.Parameter); !isParam {
 						continue
 					}
 					n++
@@ -1991,7 +2002,7 @@ func reusedBitBufferClearedWhole(c *eng.Ctx) {
 		}
 		// the clearing loop of Init
 		var clear *ssa.Store
-		for _, b := range init.Blocks {
+		for _, b := range eng.BlocksT(init) {
 			for _, in := range b.Instrs {
 				st, ok := in.(*ssa.Store)
 				if !ok {
@@ -2017,12 +2028,13 @@ func reusedBitBufferClearedWhole(c *eng.Ctx) {
 			c.Check(fresh, "buffer-cleared-or-fresh", nil, init, "Init clears the reused buffer or allocates a new one", "no clearing store and the buffer is not always newly allocated")
 			return
 		}
-		h := innermostLoop(init, clear.Block())
+		cf := clear.Parent() // Init, or the helper the clearing loop was moved into
+		h := innermostLoop(cf, clear.Block())
 		if h == nil {
 			c.Undecided("the clearing store of bitVector.Init is not in a loop")
 		}
 		whole, words := false, false
-		for _, b := range init.Blocks {
+		for _, b := range cf.Blocks {
 			if !h.Dominates(b) && b != h {
 				continue
 			}
@@ -2036,7 +2048,7 @@ func reusedBitBufferClearedWhole(c *eng.Ctx) {
 				default:
 					continue
 				}
-				if innermostLoop(init, b) != h && b != h {
+				if innermostLoop(cf, b) != h && b != h {
 					continue
 				}
 				if eng.DependsOn(bo, isLenOfBits) {
@@ -2051,7 +2063,7 @@ func reusedBitBufferClearedWhole(c *eng.Ctx) {
 		var lenReaders []string
 		for _, fn := range p.AllFuncs {
 			k := p.FuncKey(fn)
-			if !strings.HasPrefix(k, "pkg/trie.") || fn == init || fn.Blocks == nil {
+			if !strings.HasPrefix(k, "pkg/trie.") || fn == init || fn == cf || fn.Blocks == nil {
 				continue
 			}
 			for _, b := range fn.Blocks {
